@@ -113,10 +113,19 @@ def lp_case(cs, ctx, profile, probe_rate=0.0, probe_cap=64, _confirm=False):
     if spec.get('shape') in ('huge_ids', 'huge_ids_hr', 'long_list'):
         ctx.cov('family_' + spec['shape'])
     decoy_argv = None
+    decoy_text = None
     if rng.random() < profile.get('decoy_rate', 0.06):
         d = sp.make_opts(rng, spec, twopl=opts['twopl'] if rng.random() < 0.7 else None)
         decoy_argv = ['-na', str(spec['na'])] + sp.opts_to_argv(d, rng)
         ctx.cnt('runs_with_a_second_live_solver_object')
+        if rng.random() < 0.5:
+            # the other object works on ANOTHER instance (two-sided, usually with -stab): it is solved and asked for
+            # its results between this object's solve and this object's getters
+            other = sp.make_spec(random.Random(cs ^ 0x7171), na=spec['na'])
+            d = sp.make_opts(rng, other, twopl=True, stab=rng.random() < 0.8)
+            decoy_argv = ['-na', str(other['na'])] + sp.opts_to_argv(d, rng)
+            decoy_text = sp.render(other, rng=random.Random(cs), second_side=True, noise=False)
+            ctx.cnt('runs_with_a_second_live_solver_object_on_another_instance')
     stale_text = None
     if (not _confirm) and rng.random() < 0.03:
         other = sp.make_spec(random.Random(cs ^ 0x4242), na=spec['na'])
@@ -138,7 +147,7 @@ def lp_case(cs, ctx, profile, probe_rate=0.0, probe_cap=64, _confirm=False):
         ctx.cnt('solves_with_write_true')
     ex = en.run_lp(spec, opts, ctx.workdir, rng, inject=profile.get('inject', True), decoy_argv=decoy_argv,
                    cbc_options=['preprocess off'] if _confirm else None,
-                   solve_kwargs=skw or None, cwd=cwd, stale_text=stale_text)
+                   solve_kwargs=skw or None, cwd=cwd, stale_text=stale_text, decoy_text=decoy_text)
     do_probe = ref['enumerable'] and rng.random() < probe_rate
     cnt = {}
     findings, facts = en.judge_lp(ex, ref, probe_cap=probe_cap if do_probe else 0,
